@@ -22,7 +22,7 @@ pub uninterp spec fn as_ref_view<S: core::marker::PointeeSized, T: core::marker:
     u.spec("codec.rs")
     u.item(c, "MultiLineCodec", "struct")
     u.free_fn(c, "find_separator", "cln_plugin::codec")
-    u.fn(c, c.find("utf8", "fn"), "cln_plugin::codec::utf8", stub=True)
+    u.fn(c, c.find("utf8", "fn"), "cln_plugin::codec::utf8")
     u.impl(c, "MultiLineCodec", ["decode"], "cln_plugin::codec", trait="Decoder")
     u.impl(c, "MultiLineCodec", ["encode"], "cln_plugin::codec", trait="Encoder")
     u.item(c, "JsonCodec", "struct")
